@@ -1063,6 +1063,11 @@ func (ex *Exec) conv(dst, src types.Type, x Value) Value {
 			case Slice:
 				bs, ok := ex.concreteBytes(v)
 				if !ok {
+					if _, okl := ex.constOf(v.lenOr0(ex)); okl {
+						if e, isB := us.(*types.Slice).Elem().Underlying().(*types.Basic); isB && e.Kind() == types.Uint8 {
+							return &SymStr{Bytes: append([]*Term{}, ex.sliceTerms(v)...)}
+						}
+					}
 					panic(unsupported("string([]byte) with symbolic contents"))
 				}
 				if e, isB := us.(*types.Slice).Elem().Underlying().(*types.Basic); isB && e.Kind() == types.Int32 {
@@ -1092,6 +1097,9 @@ func (ex *Exec) conv(dst, src types.Type, x Value) Value {
 		}
 	case *types.Slice:
 		// string -> []byte / []rune
+		if ss, ok := x.(*SymStr); ok && ss.Table == nil {
+			return ex.termsSlice(append([]*Term{}, ss.Bytes...))
+		}
 		if s, ok := x.(string); ok {
 			if e := ud.Elem().Underlying().(*types.Basic); e.Kind() == types.Uint8 {
 				a := ex.newDense(ud.Elem(), len(s))
